@@ -72,12 +72,21 @@ where
     }
 }
 
+/// Depth limits are disabled in LiPE and [RunOptions] cannot hold them: check the value, then
+/// refuse the option with an error pointing at it instead of registering it.
+fn disabled_depth(input: &mut &'_ str) -> PResult<u32> {
+    let value = *input;
+    u32::parse.parse_next(input)?;
+    *input = value;
+    cut_err(fail.context(expected("unsupported_option"))).parse_next(input)
+}
+
 impl Parseable for GlobalOption {
     fn parse(input: &mut &'_ str) -> PResult<GlobalOption> {
         alt((
             literal("-depth").value(GlobalOption::Depth),
-            unary!("-maxdepth", GlobalOption::MaxDepth, u32::parse),
-            unary!("-mindepth", GlobalOption::MinDepth, u32::parse),
+            unary!("-maxdepth", GlobalOption::MaxDepth, disabled_depth),
+            unary!("-mindepth", GlobalOption::MinDepth, disabled_depth),
             unary!("-threads", GlobalOption::Threads, u32::parse),
         ))
         .context(label("global_option"))
